@@ -193,8 +193,8 @@ Theorem C07_four_styles_agree_m :
   forall (pv jl : str -> val) (full : bool) (gk : str) (ms : list member) (inp : input),
     finding_class_m pv gk ms inp = 0%N ->
     let r := run pv jl (as_dotted_m gk (mnorm ms)) inp in
-    (exists Tc, as_class_group_m full gk ms = Some Tc /\ run pv jl Tc inp = r)
-    /\ (exists Td, as_dataclass_m (dashes ++ gk) ms = Some Td /\ run pv jl Td inp = r)
+    (exists Tc, as_class_group_m false full gk ms = Some Tc /\ run pv jl Tc inp = r)
+    /\ (exists Td, as_dataclass_m false (dashes ++ gk) ms = Some Td /\ run pv jl Td inp = r)
     /\ run pv jl (as_inner_parser_m (dashes ++ gk) (mnorm ms)) inp = r.
 Proof. exact four_styles_agree_m. Qed.
 Print Assumptions C07_four_styles_agree_m.
@@ -205,8 +205,8 @@ Theorem C07_grouped_tables_equal_m :
   forall (full : bool) (gk : str) (os : list ofield),
     well_formed_m gk (map MLeaf os) = true -> hyphen_defaults gk (map MLeaf os) = false ->
     let T := with_load gk (as_dotted_m gk (mnorm (map MLeaf os))) in
-    as_class_group_m full gk (map MLeaf os) = Some T
-    /\ as_dataclass_m (dashes ++ gk) (map MLeaf os) = Some T
+    as_class_group_m false full gk (map MLeaf os) = Some T
+    /\ as_dataclass_m false (dashes ++ gk) (map MLeaf os) = Some T
     /\ as_inner_parser_m (dashes ++ gk) (mnorm (map MLeaf os)) = T.
 Proof. exact grouped_tables_equal_m. Qed.
 Print Assumptions C07_grouped_tables_equal_m.
@@ -234,8 +234,8 @@ Proof. exact member_guard_example. Qed.
    only tied by the correspondence there; this instance is kernel-evaluated) *)
 Example C07_nested_tables_example :
   well_formed_m w_g w_nested_members = true
-  /\ as_class_group_m false w_g w_nested_members = Some (as_inner_parser_m (dashes ++ w_g) (mnorm w_nested_members))
-  /\ as_dataclass_m (dashes ++ w_g) w_nested_members = Some (as_inner_parser_m (dashes ++ w_g) (mnorm w_nested_members))
+  /\ as_class_group_m false false w_g w_nested_members = Some (as_inner_parser_m (dashes ++ w_g) (mnorm w_nested_members))
+  /\ as_dataclass_m false (dashes ++ w_g) w_nested_members = Some (as_inner_parser_m (dashes ++ w_g) (mnorm w_nested_members))
   /\ leaf_rows_of (as_inner_parser_m (dashes ++ w_g) (mnorm w_nested_members))
      = t_rows (as_dotted_m w_g (mnorm w_nested_members)).
 Proof. exact nested_tables_example. Qed.
@@ -244,8 +244,8 @@ Proof. exact nested_tables_example. Qed.
 Theorem C07_hyphen_key_default_override_refuted :
   exists full gk ms,
     finding_class_m (fun s => VStr s) gk ms {| i_env := []; i_entry := EArgs [] |} = 8%N
-    /\ as_class_group_m full gk ms = None
-    /\ as_dataclass_m (dashes ++ gk) ms = None
-    /\ as_class_group_m full (gdest gk) ms = Some (as_inner_parser_m (dashes ++ gdest gk) (mnorm ms)).
+    /\ as_class_group_m false full gk ms = None
+    /\ as_dataclass_m false (dashes ++ gk) ms = None
+    /\ as_class_group_m true full gk ms = Some (as_inner_parser_m (dashes ++ gk) (mnorm ms)).
 Proof. exact hyphen_key_default_override_refuted. Qed.
 Print Assumptions C07_hyphen_key_default_override_refuted.
